@@ -79,8 +79,11 @@ fn emit_sequence(
 
     let mut named = Map::new();
     for (index, branch) in sequence.branches.iter().enumerate() {
-        let branch_scope =
-            scope.at_path(joined_path(&sequence_path, format!("s{index}")));
+        // the branch starts with a "pop" that is inserted below: indexed paths into the
+        // branch (nested sequences and conditionals) must count it
+        let branch_scope = scope
+            .at_path(joined_path(&sequence_path, format!("s{index}")))
+            .with_param_offset(1);
         let mut branch_container = emit_nodes(branch, &branch_scope, context)?;
         branch_container.content.insert(0, json!("pop"));
         branch_container.push(json!({"->": joined_path(&sequence_path, rejoin_index)}));
